@@ -79,9 +79,65 @@ Proof. exact crash_example_lost_rename. Qed.
 Example C12_example_premises : cfg_valid c_main_only = true /\ In e_json (damage_of Json).
 Proof. split; [reflexivity | left; reflexivity]. Qed.
 
+(* ---- D23: the scheduled save still being written when stop() makes the final save ----
+   Model: Model/FsConc.v (two threads inside save_sensors over one file system: thread-local file object and
+   `exists`, shared files and need_save; one preemption of the scheduled save) on top of the interpreter of the
+   GENERATED programs (Gen/SaveTrace.v, Model/FsSave.v).  Tie: harness/impl/slowsave.py (real threads, the same
+   three pause points). *)
+From PMS Require Model.FsConc Proofs.FsConcProofs.
+
+(* pause/resume mean what they say: save_sensors preempted before call j of statement i and resumed at once IS
+   save_sensors (all programs, states, positions) *)
+Theorem C12_save_preempted_and_resumed_is_save :
+  forall (St : Type) w (new : St) prog i j st,
+    FsSave.exec w new None prog st =
+    match FsConc.pause w new i j prog st with
+    | (stp, FsSave.Crashed) => FsConc.resume w new i j prog stp
+    | r => r
+    end.
+Proof. exact (@FsConcProofs.save_split). Qed.
+
+(* WITHOUT mutual exclusion of saves (the code before fix c9a1a32) the property is false: for both formats there is
+   a schedule - the scheduled save preempted right before file_handle.flush(), a message, stop()'s final save run
+   completely, the scheduled save resumed - after which stop()'s save has ended normally, the scheduled one has
+   raised, there is no main file, and a start-up does not load the state held at stop *)
+Theorem C12_stop_during_scheduled_save_unlocked_refuted :
+  forall f : FsCode.fmt, exists i j,
+    nth_error (FsCode.save_prog_of f) i = Some (AbstractFs.mkI AbstractFs.IFlush false true true) /\
+    FsConc.cc_paused (FsConcProofs.d23_obs f i j) = true /\
+    FsConc.cc_status2 (FsConcProofs.d23_obs f i j) = FsSave.Done /\
+    FsConc.cc_status1 (FsConcProofs.d23_obs f i j) = FsSave.Raised /\
+    AbstractFs.fs_isfile (FsConc.cc_fs (FsConcProofs.d23_obs f i j)) AbstractFs.Main = false /\
+    FsConc.cc_loaded (FsConcProofs.d23_obs f i j) <> FsSave.LOk [FsProofs.TNext].
+Proof. exact FsConcProofs.unlocked_concurrent_save_refuted. Qed.
+
+(* WITH the lock (saves exclude each other: the scheduled save completely, the message, then stop()'s save): for
+   both formats, every type of states, every prior configuration, all numbers of writes and measured decoder
+   classes - stop()'s save runs to completion, leaves need_save clear and a start-up loads exactly the state held
+   at stop *)
+Theorem C12_stop_during_scheduled_save_locked :
+  forall (f : FsCode.fmt) (St : Type) (old new1 new2 sb stt : St) (c : FsSave.cfg) (w : nat)
+         (ep ee : AbstractFs.cls) (w2 : nat),
+    FsSave.cfg_valid c = true -> 1 <= w -> 1 <= w2 ->
+    In ep (FsCode.damage_of f) -> In ee (FsCode.damage_of f) ->
+    FsSave.fo_status (FsConc.conc_locked (FsCode.code f) c old new1 new2 sb stt w ep ee w2) <> FsSave.Crashed /\
+    FsSave.again_spec new2 (FsSave.fo_again (FsConc.conc_locked (FsCode.code f) c old new1 new2 sb stt w ep ee w2)).
+Proof. exact FsConcProofs.locked_saves_persist_last. Qed.
+
+(* the other two pause points of the harness family lose nothing even without the lock (as observed) *)
+Example C12_unlocked_other_pause_points :
+  forall f : FsCode.fmt,
+    FsConc.cc_loaded (FsConcProofs.d23_obs f 7 0) = FsSave.LOk [FsProofs.TNext] /\
+    FsConc.cc_loaded (FsConcProofs.d23_obs f 9 0) = FsSave.LOk [FsProofs.TNext].
+Proof. exact FsConcProofs.unlocked_other_pause_points. Qed.
+
+
 Print Assumptions C12_crash_atomic.
 Print Assumptions C12_fault_atomic.
 Print Assumptions C12_five_configurations.
 Print Assumptions C12_fsync_needed.
 Print Assumptions C12_order_needed.
 Print Assumptions C12_atomic_save_unordered_metadata_refuted.
+Print Assumptions C12_save_preempted_and_resumed_is_save.
+Print Assumptions C12_stop_during_scheduled_save_unlocked_refuted.
+Print Assumptions C12_stop_during_scheduled_save_locked.
